@@ -533,8 +533,16 @@ def inline_helpers(tree: ast.AST, defs: dict, select: typing.Callable[[str, ast.
         params = [a.arg for a in node.args.args]
         defaults = dict(zip(params[len(params) - len(node.args.defaults):], node.args.defaults))
         bound = params[1:] if kind in ('method', 'class') else params
+        cls_param = None
         if kind == 'class' and any(isinstance(x, ast.Name) and x.id == params[0] for st in body for x in ast.walk(st)):
-            continue
+            # a classmethod that only reads attributes through cls: at a ``self.h(..)`` / ``cls.h(..)`` call the receiver can
+            # stand in for cls (class attributes are found through the instance as well)
+            uses = [x for st in body for x in ast.walk(st) if isinstance(x, ast.Name) and x.id == params[0]]
+            attr_loads = {id(x.value) for st in body for x in ast.walk(st) if isinstance(x, ast.Attribute) and isinstance(x.ctx, ast.Load)}
+            if all(id(u) in attr_loads for u in uses):
+                cls_param = params[0]
+            else:
+                continue
         name = node.name
         scope = owner
         cls_name = owner.name if isinstance(owner, ast.ClassDef) else None
@@ -553,11 +561,9 @@ def inline_helpers(tree: ast.AST, defs: dict, select: typing.Callable[[str, ast.
         if any((isinstance(x, ast.Attribute) and x.attr == name) or (isinstance(x, ast.Name) and x.id == name) for st in node.body for x in ast.walk(st)):
             continue  # recursive (or self-referencing): stays a function
         sites = [c for c in ast.walk(scope) if is_call(c) and id(c) not in inside]
-        if not sites:
-            continue
         funcs = {id(c.func) for c in sites}
         other_refs = [x for x in ast.walk(scope) if ((isinstance(x, ast.Attribute) and x.attr == name) or (isinstance(x, ast.Name) and x.id == name)) and id(x) not in funcs and id(x) not in inside]
-        if other_refs and not tail_mode and kind == 'plain' and len(body) == 1 and isinstance(body[0], ast.Return) and body[0].value is not None and all(isinstance(x, ast.Name) and isinstance(x.ctx, ast.Load) for x in other_refs) and not node.args.defaults:
+        if other_refs and not tail_mode and kind in ('plain', 'static') and len(body) == 1 and isinstance(body[0], ast.Return) and body[0].value is not None and all(isinstance(x.ctx, ast.Load) and (isinstance(x, ast.Name) or (kind == 'static' and isinstance(x, ast.Attribute) and isinstance(x.value, ast.Name) and x.value.id in ('self', 'cls', cls_name))) for x in other_refs) and not node.args.defaults:
             # a one-expression function handed around as a value is the lambda of that expression
             for x in other_refs:
                 lam = ast.copy_location(ast.Lambda(args=clone(node.args), body=clone(body[0].value)), x)
@@ -578,6 +584,14 @@ def inline_helpers(tree: ast.AST, defs: dict, select: typing.Callable[[str, ast.
             changed = True
         if other_refs:
             continue  # passed around as a value / recursive: not a plain call-only helper
+        if not sites:
+            if changed and not any(((isinstance(x, ast.Attribute) and x.attr == name) or (isinstance(x, ast.Name) and x.id == name)) and id(x) not in inside for x in ast.walk(scope)):
+                for blk in ast.walk(owner):
+                    for f in ('body', 'orelse', 'finalbody'):
+                        cand = getattr(blk, f, None)
+                        if isinstance(cand, list) and any(x is node for x in cand):
+                            cand[:] = [x for x in cand if x is not node] or [ast.Pass()]
+            continue
         helper_locals = {x.id for st in body for x in ast.walk(st) if isinstance(x, ast.Name) and isinstance(x.ctx, ast.Store)}
         helper_locals |= {a.arg for st in body for x in ast.walk(st) if isinstance(x, ast.comprehension) for a in []}
 
@@ -599,6 +613,14 @@ def inline_helpers(tree: ast.AST, defs: dict, select: typing.Callable[[str, ast.
                     else:
                         return None
             stmts = clone(body)
+            if cls_param is not None:
+                recv = call.func.value if isinstance(call.func, ast.Attribute) else None
+                if not (isinstance(recv, ast.Name) and recv.id in ('self', 'cls')):
+                    return None
+                for st_ in stmts:
+                    for x in ast.walk(st_):
+                        if isinstance(x, ast.Name) and x.id == cls_param:
+                            x.id = recv.id
             caller_names = set()
             if caller is not None:
                 caller_names = {x.id for x in ast.walk(caller) if isinstance(x, ast.Name) and id(x) not in inside} | _fn_params(caller)
@@ -705,16 +727,16 @@ def inline_helpers(tree: ast.AST, defs: dict, select: typing.Callable[[str, ast.
                         tail = []  # ``a, b = a, b``: the helper left its results in the very variables they are assigned to
                 seq[k:k + 1] = prelude + stmts + tail
                 done += 1
-            elif ret is not None and (prelude or stmts) and isinstance(st, (ast.Assign, ast.AnnAssign, ast.Return, ast.Expr, ast.AugAssign)):
+            elif ret is not None and (prelude or stmts) and isinstance(st, (ast.Assign, ast.AnnAssign, ast.Return, ast.Expr, ast.AugAssign, ast.If)) and (not isinstance(st, ast.If) or any(x is call for x in ast.walk(st.test))):
                 # a multi-statement helper called inside a larger expression: its statements run first, if the call is
                 # evaluated unconditionally and before any other call of that statement
                 from . import equiv
 
                 order: list = []
-                equiv._postorder(st, order)  # pylint: disable=protected-access
+                equiv._postorder(st.test if isinstance(st, ast.If) else st, order)  # pylint: disable=protected-access
                 pos = next((j for j, x in enumerate(order) if x is call), None)
                 earlier = [x for x in order[:pos] if isinstance(x, ast.Call) and not any(x is y for y in ast.walk(call))] if pos is not None else [None]
-                if pos is None or earlier or equiv._conditional_position(st, call):  # pylint: disable=protected-access
+                if pos is None or earlier or equiv._conditional_position(st.test if isinstance(st, ast.If) else st, call):  # pylint: disable=protected-access
                     continue
                 tmp = f'{name}__r{done}'
                 hoisted = prelude + stmts + [ast.Assign(targets=[ast.Name(id=tmp, ctx=ast.Store())], value=ret, lineno=st.lineno, col_offset=0)]
@@ -724,7 +746,11 @@ def inline_helpers(tree: ast.AST, defs: dict, select: typing.Callable[[str, ast.
                         self.generic_visit(n)
                         return ast.copy_location(ast.Name(id=tmp, ctx=ast.Load()), n) if n is call else n
 
-                seq[k:k + 1] = hoisted + [Rep2().visit(st)]
+                if isinstance(st, ast.If):
+                    st.test = Rep2().visit(st.test)
+                    seq[k:k + 1] = hoisted + [st]
+                else:
+                    seq[k:k + 1] = hoisted + [Rep2().visit(st)]
                 done += 1
             elif not prelude and not stmts and ret is not None:
                 # one-expression helper inside a larger expression
